@@ -19,6 +19,7 @@ class Emulator:
             if self._res.outcome in ('MACHINE_FAULT', 'BUDGET'):
                 raise RuntimeError(f'SVM: {self._res.outcome} {self._res.fault}')
             self._events = self._res.events
+            self._calibrate_ref()
         if self._pos < len(self._events):
             kind, val = self._events[self._pos]
             self._pos += 1
@@ -30,3 +31,48 @@ class Emulator:
                 self.ctx.on_flag(self.prog, val)
             return True
         return self._res.outcome != DEFEAT
+
+    def _calibrate_ref(self):
+        import json
+        import os
+        path = os.environ.get('HIDSIM_CALIBRATE_REF')
+        if not path:
+            return
+        import spasm
+        from hidsim import parse, refmodel
+        from hidsim.machine import history_of
+        rec = {'ok': None}
+        try:
+            if spasm.last_source is None:
+                rec['skip'] = 'hand-written assembly'
+            else:
+                tree = parse.parse(spasm.last_source)
+                argv = list(getattr(self.prog, 'argv_used', []))
+                ref = refmodel.run(tree, argv, self.prog.W, stack_bytes=len(self.prog.state))
+                unspecified = ref.outcome == 'UNSPECIFIED'
+                if unspecified:
+                    ref = refmodel.run(tree, argv, self.prog.W, uninit_zero=True, stack_bytes=len(self.prog.state))
+                rec['ref'] = ref.outcome
+                rec['svm'] = self._res.outcome
+                if ref.outcome in ('WIN', 'ERROR', 'DIVERGE'):
+                    want = [list(e) for e in ref.history]
+                    got = [list(e) for e in history_of(self._res.events)]
+                    rec['ok'] = want == got and ref.outcome == self._res.outcome
+                    if not rec['ok']:
+                        if self._res.error_kind == 'stack_overflow' and want[:len(got) - 2] == got[:-2]:
+                            rec['ok'] = None
+                            rec['skip'] = 'stack-size dependent (the SVM output is a prefix of the reference output)'
+                        elif unspecified:
+                            rec['ok'] = None
+                            rec['skip'] = 'reads uninitialised elements: contents unspecified'
+                        else:
+                            rec['want'] = str(want)[:300]
+                            rec['got'] = str(got)[:300]
+                else:
+                    rec['skip'] = f'reference run is {ref.outcome}: {ref.why}'
+            rec['first_line'] = (spasm.last_source or '').strip().splitlines()[:1]
+        except Exception as e:   # noqa: BLE001
+            rec['error'] = f'{type(e).__name__}: {e}'
+        spasm.last_source = None
+        with open(path, 'a') as f:
+            f.write(json.dumps(rec) + '\n')
